@@ -27,6 +27,13 @@ structure Valid (m : Main) (r : Recs) (b : Block) : Prop where
   freshUncles : ∀ u ∈ b.uncles, m.uncles u = none
   inputs : ∀ o ∈ deadInputs b, m.cells o ≠ none ∨ o ∈ blockOutPoints b
   body : r.bodies b.id = none ∨ r.bodies b.id = some b
+  /-- the block opens an epoch exactly when its epoch starts at its number -/
+  headOk : b.isHead = true ↔ b.epochRec.start = b.number
+  /-- an epoch opened by the block is beyond every epoch of the chain so far -/
+  freshEpochNum : b.isHead = true → m.epochNum b.epochRec.number = none
+  /-- records are per hash: what is stored for this block / its epoch is what the block says -/
+  bepoch : r.blockEpoch b.id = none ∨ r.blockEpoch b.id = some b.epochRec.key
+  eext : r.epochExt b.epochRec.key = some b.epochRec ∨ (b.isHead = true ∧ r.epochExt b.epochRec.key = none)
 
 inductive ValidChain : View → List Block → Prop
   | nil (v : View) : ValidChain v []
@@ -71,10 +78,11 @@ theorem mem_restoredCells {m : Main} {r : Recs} {os : List OutPoint} {p : OutPoi
           · exact Or.inr ⟨o', ho', tx', info', out', h1, h2, h3⟩
 
 /-- the tx-info column after attach + detach of `b`, where `b`'s own ids were fresh -/
-theorem txInfo_detach_attach (m : Main) (b : Block) (hfresh : ∀ t ∈ txIds b, m.txInfo t = none) :
-    (detach (attachCell (attach m b) b) b).txInfo = m.txInfo := by
+theorem txInfo_detach_attach (m : Main) (ea ed : Option EpochRec) (b : Block)
+    (hfresh : ∀ t ∈ txIds b, m.txInfo t = none) :
+    (detach (attachCell (attach m ea b) b) ed b).txInfo = m.txInfo := by
   funext t
-  show putAll (attachCell (attach m b) b).txInfo none (b.txs.map (·.id)) t = m.txInfo t
+  show putAll (attachCell (attach m ea b) b).txInfo none (b.txs.map (·.id)) t = m.txInfo t
   rw [putAll_apply, attachCell_txInfo]
   by_cases h : t ∈ b.txs.map (·.id)
   · simp [h, hfresh t h]
@@ -100,11 +108,12 @@ theorem nodup_index_unique {ts : List Tx} (hnd : (ts.map (·.id)).Nodup) {k k' :
 cells created and spent inside the block (their tx-info rows are already gone when
 `detach_block_cell` runs, so they are not restored, and the output deletion removes them).
 `r'` is any record store that still has the bodies `r` had. -/
-theorem detach_attach (m : Main) (r r' : Recs) (b : Block)
+theorem detach_attach (m : Main) (r r' : Recs) (b : Block) (ea ed : Option EpochRec)
     (hc : CellsConsistent m r) (hv : Valid m r b)
-    (hext : ∀ id blk, r.bodies id = some blk → r'.bodies id = some blk) :
-    detachCell (detach (attachCell (attach m b) b) b) r' b = m := by
-  have htx := txInfo_detach_attach m b hv.freshTx
+    (hext : ∀ id blk, r.bodies id = some blk → r'.bodies id = some blk)
+    (hnum : detachEpochNum (attachEpochNum m.epochNum ea b) ed b = m.epochNum) :
+    detachCell (detach (attachCell (attach m ea b) b) ed b) r' b = m := by
+  have htx := txInfo_detach_attach m ea ed b hv.freshTx
   apply Main.ext'
   · -- cells
     funext x
@@ -116,11 +125,11 @@ theorem detach_attach (m : Main) (r r' : Recs) (b : Block)
       exact (hv.freshCell x (by rw [h1]; exact List.mem_map_of_mem htxm)).symm
     · simp only [hout, if_false]
       -- abbreviations
-      have hm1 : ∀ y, (attachCell (attach m b) b).cells y =
-          if y ∈ deadInputs b then none else (insertCells (attach m b) (blockCells b 0 b.txs)).cells y := by
+      have hm1 : ∀ y, (attachCell (attach m ea b) b).cells y =
+          if y ∈ deadInputs b then none else (insertCells (attach m ea b) (blockCells b 0 b.txs)).cells y := by
         intro y; simp only [attachCell]; rw [deleteCells_cells]
       have hx_notkey : x ∉ (blockCells b 0 b.txs).map (·.1) := fun h => hout (mem_blockCells_keys.mp h)
-      by_cases hr : x ∈ (restoredCells (detach (attachCell (attach m b) b) b) r' (deadInputs b)).map (·.1)
+      by_cases hr : x ∈ (restoredCells (detach (attachCell (attach m ea b) b) ed b) r' (deadInputs b)).map (·.1)
       · -- restored: equals the old row
         obtain ⟨p, hp, hpx⟩ := List.mem_map.mp hr
         obtain ⟨o, ho, tx, info, out, hg, hout', hpe⟩ := mem_restoredCells.mp hp
@@ -132,7 +141,7 @@ theorem detach_attach (m : Main) (r r' : Recs) (b : Block)
           · exact absurd h hout
         obtain ⟨row, hrow⟩ := Option.ne_none_iff_exists'.mp hlive
         obtain ⟨info0, blk0, tx0, out0, hi0, hb0, ht0, ho0, hrow0⟩ := hc o row hrow
-        have key : ∀ q ∈ restoredCells (detach (attachCell (attach m b) b) b) r' (deadInputs b), q.1 = o → q.2 = row := by
+        have key : ∀ q ∈ restoredCells (detach (attachCell (attach m ea b) b) ed b) r' (deadInputs b), q.1 = o → q.2 = row := by
           intro q hq hq1
           obtain ⟨o', _, tx', info', out', hg', hout'', hqe⟩ := mem_restoredCells.mp hq
           have : o' = o := by rw [hqe] at hq1; exact hq1
@@ -165,7 +174,7 @@ theorem detach_attach (m : Main) (r r' : Recs) (b : Block)
   · rw [detachCell_txInfo]; exact htx
   · rw [detachCell_index]
     funext n
-    show upd (attachCell (attach m b) b).index b.number none n = m.index n
+    show upd (attachCell (attach m ea b) b).index b.number none n = m.index n
     rw [attachCell_index]
     show upd (upd m.index b.number (some b.id)) b.number none n = m.index n
     by_cases h : n = b.number
@@ -173,7 +182,7 @@ theorem detach_attach (m : Main) (r r' : Recs) (b : Block)
     · simp [upd, h]
   · rw [detachCell_rindex]
     funext n
-    show upd (attachCell (attach m b) b).rindex b.id none n = m.rindex n
+    show upd (attachCell (attach m ea b) b).rindex b.id none n = m.rindex n
     rw [attachCell_rindex]
     show upd (upd m.rindex b.id (some b.number)) b.id none n = m.rindex n
     by_cases h : n = b.id
@@ -181,13 +190,17 @@ theorem detach_attach (m : Main) (r r' : Recs) (b : Block)
     · simp [upd, h]
   · rw [detachCell_uncles]
     funext u
-    show putAll (attachCell (attach m b) b).uncles none b.uncles u = m.uncles u
+    show putAll (attachCell (attach m ea b) b).uncles none b.uncles u = m.uncles u
     rw [attachCell_uncles]
     show putAll (putAll m.uncles (some ()) b.uncles) none b.uncles u = m.uncles u
     rw [putAll_apply, putAll_apply]
     by_cases h : u ∈ b.uncles
     · simp [h, hv.freshUncles u h]
     · simp [h]
+  · rw [detachCell_epochNum]
+    show detachEpochNum (attachCell (attach m ea b) b).epochNum ed b = m.epochNum
+    rw [attachCell_epochNum]
+    exact hnum
   · simp
   · simp
 
@@ -213,11 +226,11 @@ theorem cellsConsistent_attachOne (m : Main) (r : Recs) (b : Block)
     CellsConsistent (attachOneM m b) (attachOneR r b) := by
   intro o row hrow
   have hcells : (attachOneM m b).cells o =
-      if o ∈ deadInputs b then none else (insertCells (attach m b) (blockCells b 0 b.txs)).cells o := by
-    show (attachCell (attach m b) b).cells o = _
+      if o ∈ deadInputs b then none else (insertCells (attach m (headEpoch b) b) (blockCells b 0 b.txs)).cells o := by
+    show (attachCell (attach m (headEpoch b) b) b).cells o = _
     simp only [attachCell]; rw [deleteCells_cells]
   have htxi : (attachOneM m b).txInfo = putTxInfos b m.txInfo 0 b.txs := by
-    show (attachCell (attach m b) b).txInfo = _
+    show (attachCell (attach m (headEpoch b) b) b).txInfo = _
     rw [attachCell_txInfo]; rfl
   rw [hcells] at hrow
   by_cases hd : o ∈ deadInputs b
@@ -255,6 +268,95 @@ theorem cellsConsistent_attachOne (m : Main) (r : Recs) (b : Block)
       refine ⟨info, blk, tx, out, ?_, bodies_mono_attachOne r b hv.body _ _ hb, ht, ho, hr⟩
       rw [htxi, putTxInfos_not_mem b m.txInfo 0 b.txs o.tx hnot]
       exact hi
+
+/-! ### records only grow -/
+
+/-- every record of `r` is still there, unchanged, in `r'` -/
+structure RecsLe (r r' : Recs) : Prop where
+  bodies : ∀ id blk, r.bodies id = some blk → r'.bodies id = some blk
+  blockEpoch : ∀ id k, r.blockEpoch id = some k → r'.blockEpoch id = some k
+  epochExt : ∀ k e, r.epochExt k = some e → r'.epochExt k = some e
+
+theorem RecsLe.refl (r : Recs) : RecsLe r r := ⟨fun _ _ h => h, fun _ _ h => h, fun _ _ h => h⟩
+
+theorem RecsLe.trans {a b c : Recs} (h1 : RecsLe a b) (h2 : RecsLe b c) : RecsLe a c :=
+  ⟨fun id blk h => h2.bodies id blk (h1.bodies id blk h), fun id k h => h2.blockEpoch id k (h1.blockEpoch id k h),
+   fun k e h => h2.epochExt k e (h1.epochExt k e h)⟩
+
+theorem epochOf_mono {r r' : Recs} (h : RecsLe r r') {id : Nat} {e : EpochRec} (he : epochOf r id = some e) :
+    epochOf r' id = some e := by
+  unfold epochOf at he ⊢
+  cases hk : r.blockEpoch id with
+  | none => rw [hk] at he; cases he
+  | some k =>
+    rw [hk] at he
+    rw [h.blockEpoch id k hk]
+    exact h.epochExt k e he
+
+theorem attachOneR_blockEpoch (r : Recs) (b : Block) :
+    (attachOneR r b).blockEpoch = upd r.blockEpoch b.id (some b.epochRec.key) := by
+  simp only [attachOneR, putExt, insertBlockEpoch, insertBlock, insertEpochExt]
+  split <;> rfl
+
+theorem attachOneR_epochExt (r : Recs) (b : Block) :
+    (attachOneR r b).epochExt = if b.isHead then upd r.epochExt b.epochRec.key (some b.epochRec) else r.epochExt := by
+  simp only [attachOneR, putExt, insertBlockEpoch, insertBlock, insertEpochExt]
+  split <;> rfl
+
+theorem recsLe_attachOneR {m : Main} {r : Recs} {b : Block} (hv : Valid m r b) : RecsLe r (attachOneR r b) := by
+  refine ⟨fun id blk h => bodies_mono_attachOne r b hv.body id blk h, ?_, ?_⟩
+  · intro id k h
+    rw [attachOneR_blockEpoch]
+    by_cases hid : id = b.id
+    · subst hid
+      rcases hv.bepoch with hb | hb
+      · rw [hb] at h; cases h
+      · rw [hb] at h; simp [upd, h]
+    · simp [upd, hid, h]
+  · intro k e h
+    rw [attachOneR_epochExt]
+    by_cases hh : b.isHead = true
+    · simp only [hh, if_true]
+      by_cases hk : k = b.epochRec.key
+      · subst hk
+        rcases hv.eext with he | ⟨_, he⟩
+        · rw [he] at h; simp [upd, h]
+        · rw [he] at h; cases h
+      · simp [upd, hk, h]
+    · simp [hh, h]
+
+/-- after the records of `b` are written, `get_block_epoch(b)` is the block's epoch -/
+theorem epochOf_attachOneR {m : Main} {r : Recs} {b : Block} (hv : Valid m r b) :
+    epochOf (attachOneR r b) b.id = some b.epochRec := by
+  unfold epochOf
+  rw [attachOneR_blockEpoch, attachOneR_epochExt]
+  simp only [upd_same]
+  by_cases hh : b.isHead = true
+  · simp [hh, upd]
+  · simp only [hh]
+    rcases hv.eext with he | ⟨h1, _⟩
+    · simpa using he
+    · exact absurd h1 hh
+
+/-- the number-row write of the reference store (epoch heads only) is undone by the number-row
+delete of `detach_block` (which looks the epoch up through the records) -/
+theorem epochNum_undo {m : Main} {r : Recs} {b : Block} (hv : Valid m r b) :
+    detachEpochNum (attachEpochNum m.epochNum (headEpoch b) b) (some b.epochRec) b = m.epochNum := by
+  unfold detachEpochNum attachEpochNum headEpoch
+  by_cases hh : b.isHead = true
+  · have hs := hv.headOk.mp hh
+    simp only [hh, if_true, hs]
+    funext n
+    by_cases hn : n = b.epochRec.number
+    · subst hn; simp [upd, hv.freshEpochNum hh]
+    · simp [upd, hn]
+  · have hs : ¬ b.epochRec.start = b.number := fun h => hh (hv.headOk.mpr h)
+    simp [hh, hs]
+
+theorem recsLe_attachAll {v : View} {bs : List Block} (hv : ValidChain v bs) : RecsLe v.r (attachAll v bs).r := by
+  induction hv with
+  | nil v => exact RecsLe.refl _
+  | cons hb _ ih => exact RecsLe.trans (recsLe_attachOneR hb) ih
 
 /-! ### rollback of a whole attached suffix -/
 
@@ -300,13 +402,13 @@ theorem restoredCells_withTC (m : Main) (t c) (r : Recs) (os) :
 theorem rollbackOne_withTC (m : Main) (t c) (r : Recs) (b : Block) :
     (rollbackOne ⟨m.withTC t c, r⟩ b).m = (rollbackOne ⟨m, r⟩ b).m.withTC t c := by
   simp only [rollbackOne, detachCell]
-  have : detach (m.withTC t c) b = (detach m b).withTC t c := rfl
+  have : detach (m.withTC t c) (epochOf r b.id) b = (detach m (epochOf r b.id) b).withTC t c := rfl
   rw [this, restoredCells_withTC, insertCells_withTC, deleteCells_withTC]
 
 @[simp] theorem withTC_withTC (m : Main) (t c t' c') : (m.withTC t c).withTC t' c' = m.withTC t' c' := rfl
 
 theorem attachOneM_eq (m : Main) (b : Block) :
-    attachOneM m b = (attachCell (attach m b) b).withTC (some b.id) (some b.epochRec) := rfl
+    attachOneM m b = (attachCell (attach m (headEpoch b) b) b).withTC (some b.id) (some b.epochRec) := rfl
 
 theorem bodies_mono_attachAll {v : View} {bs : List Block} (hv : ValidChain v bs)
     (id : Nat) (blk : Block) (h : v.r.bodies id = some blk) : (attachAll v bs).r.bodies id = some blk := by
@@ -324,7 +426,7 @@ theorem cellsConsistent_attachAll {v : View} {bs : List Block} (hc : CellsConsis
 current epoch are whatever they were (the caller rewrites them) -/
 theorem rollback_attachAll (v : View) (bs : List Block) (hc : CellsConsistent v.m v.r)
     (hv : ValidChain v bs) (r' : Recs)
-    (hext : ∀ id blk, (attachAll v bs).r.bodies id = some blk → r'.bodies id = some blk) (t c) :
+    (hext : RecsLe (attachAll v bs).r r') (t c) :
     (rollback ⟨(attachAll v bs).m.withTC t c, r'⟩ bs.reverse).m = v.m.withTC t c := by
   induction hv generalizing t c with
   | nil v => rfl
@@ -345,12 +447,13 @@ theorem rollback_attachAll (v : View) (bs : List Block) (hc : CellsConsistent v.
     rw [rollbackOne_withTC]
     show (rollbackOne ⟨attachOneM v.m b, r'⟩ b).m.withTC t c = v.m.withTC t c
     rw [attachOneM_eq, rollbackOne_withTC]
-    have hext' : ∀ id blk, v.r.bodies id = some blk → r'.bodies id = some blk := by
-      intro id blk h
-      exact hext id blk (bodies_mono_attachAll hrest id blk (bodies_mono_attachOne _ _ hb.body _ _ h))
-    have := detach_attach v.m v.r r' b hc hb hext'
+    have hle1 : RecsLe (attachOneR v.r b) r' := RecsLe.trans (recsLe_attachAll hrest) hext
+    have hext' : ∀ id blk, v.r.bodies id = some blk → r'.bodies id = some blk :=
+      (RecsLe.trans (recsLe_attachOneR hb) hle1).bodies
+    have hep : epochOf r' b.id = some b.epochRec := epochOf_mono hle1 (epochOf_attachOneR hb)
+    have := detach_attach v.m v.r r' b (headEpoch b) (some b.epochRec) hc hb hext' (epochNum_undo hb)
     simp only [rollbackOne]
-    rw [this]
+    rw [hep, this]
     rfl
 
 end CkbVerif.Store
